@@ -138,6 +138,7 @@ const (
 	vkWaitTO           // switch router with msg wait + timeout
 	vkEnter            // enter_flow (non terminal) then plain exit
 	vkEnterTerm        // enter_flow (terminal)
+	vkEnterFail        // enter_flow (non terminal) followed on the same node by an enter_flow of a flow that does not exist
 	vkNumKinds
 )
 
@@ -209,8 +210,11 @@ func verifBuildNode(flow, n int, sp verifNodeSpec) flows.Node {
 		for e := 0; e < sp.nexits; e++ {
 			exits = append(exits, newExit(e))
 		}
-	case vkEnter, vkEnterTerm:
+	case vkEnter, vkEnterTerm, vkEnterFail:
 		acts = append(acts, actions.NewEnterFlow(flows.ActionUUID(id("a")), assets.NewFlowReference(verifFlowUUID(sp.enter), "F"), sp.kind == vkEnterTerm))
+		if sp.kind == vkEnterFail {
+			acts = append(acts, actions.NewEnterFlow(flows.ActionUUID(id("b")), assets.NewFlowReference(verifFlowUUID(9), "Gone"), false))
+		}
 		exits = append(exits, newExit(0))
 	default:
 		// switch router: one case -> category 0 (exit 0); default -> category 1 (exit 1); timeout -> category 2 (exit 2)
